@@ -44,7 +44,7 @@ CaseEv == [ev |-> "case", id |-> "m", noid |-> FALSE, subs |-> <<>>,
            mode |-> Mode, nodes |-> Scenario.nodes, edges |-> Scenario.edges,
            branches |-> [i \in 1..Len(brs) |-> [from |-> brs[i].from, ends |-> NameSeq(brs[i].ends), multi |-> brs[i].multi, data |-> Mode # "wf"]],
            max |-> deco.max, before |-> NameSeq(deco.before), after |-> NameSeq(deco.after), rerun |-> NameSeq(deco.rerun),
-           state |-> Stateful, fail |-> deco.fail, post |-> FALSE, hmod |-> FALSE, echo |-> <<>>]
+           state |-> Stateful, fail |-> deco.fail, post |-> FALSE, hmod |-> FALSE, echo |-> <<>>, x0 |-> "x"]
 MaxStepsImpl == IF deco.max = 0 THEN N + 10 ELSE deco.max      \* graph.go: len(chanSubscribeTo) + 10
 
 \* ------------------------------------------------------------------ static structure, as compile() derives it
@@ -157,7 +157,7 @@ SaveSimple(C, nx, bef, aft, evs) ==
   /\ UNCHANGED <<gvars, step, st, attempts, calls>>
 
 Start == /\ rstat = "init"
-         /\ LET r == Calc(ch, (START :> R!InitialInput), <<START>>) IN
+         /\ LET r == Calc(ch, (START :> R!InitialInput(CaseEv)), <<START>>) IN
               IF END \in r.ready THEN Finished(r.evs \o <<ResultEv(r.inputs[END])>>, "done")
               ELSE LET nx == [n \in r.ready |-> r.inputs[n]]  bh == r.ready \cap deco.before IN
                    IF StartCheck /\ bh # {} THEN SaveSimple(r.C, nx, bh, {}, r.evs)
